@@ -722,3 +722,126 @@ def loop_body(body, header, entry):
         if h == header:
             return set(blocks)
     return {b for b in body.fwd(entry) if header in body.fwd(b)} | {entry}
+
+
+_OPS_CALLS = {"ops::Add::add": "Add", "ops::Sub::sub": "Sub", "ops::Mul::mul": "Mul", "ops::Div::div": "Div", "ops::Rem::rem": "Rem"}
+
+
+def fold_std_ops(t):
+    """std::ops trait calls / num_traits constants -> binops and ints, so that eval_int can fold generic arithmetic"""
+    def f(x):
+        if x[0] == "call":
+            for suf, op in _OPS_CALLS.items():
+                if x[1].endswith(suf) and len(x[2]) == 2:
+                    return ("binop", op, x[2][0], x[2][1])
+            if x[1].endswith("ops::Neg::neg") and len(x[2]) == 1:
+                return ("unop", "Neg", x[2][0])
+            if x[1].endswith("One::one") and not x[2]:
+                return ("int", 1)
+            if x[1].endswith("Zero::zero") and not x[2]:
+                return ("int", 0)
+            if x[1].endswith("Zero::is_zero") and len(x[2]) == 1:
+                return ("binop", "Eq", x[2][0], ("int", 0))
+        if x[0] in ("ref", "deref"):
+            return x[1]
+        return None
+    return map_term(t, f)
+
+
+def euclid_contract(ctx, rule, body, g):
+    """Extended Euclid, decided by induction with the loop invariant evaluated on sampled states (polynomial identity testing on
+    the update expressions, no execution of the function):
+      init   (a, a', r, r', s, s') = (A, B, 1, 0, 0, 1)
+      step   from ANY state with a = rA + sB, a' = r'A + s'B, a' != 0 the update yields a state with the same two equations,
+             new a = old a', |new a'| < |old a'| (so gcd(a, a') is preserved and the loop terminates), and rs' - sr' changes sign only
+      exit   the loop is left exactly when a' == 0
+      result (a, r, s, r', s') in this order
+    Together: r*A + s*B = g = +-gcd(A, B), t*A + u*B = 0, r*u - s*t = +-1 for every input (overflow aside)."""
+    import random
+    A_, B_ = ("param", 1, body.debug.get(1, "")), ("param", 2, body.debug.get(2, ""))
+    ret = norm(body.local_origin(0), g)
+    if not (ret[0] == "agg" and ret[1] == "tuple" and len(ret[2]) == 5 and all(x[0] == "local" for x in ret[2])):
+        ctx.ob(rule, body.name, "result", "violation", "the result is not a 5-tuple of the loop's variables: " + show(ret, 1)[:80])
+        return
+    a, r, s, t, u = ret[2]
+    defs = {}
+    for x in (a, r, s, t, u):
+        ds = [(dbb, norm(d, g)) for dbb, d in body.all_defs_origins(x[1])]
+        loops = natural_loops(body)
+        inl = [d for dbb, d in ds if any(dbb in bl for h, bl in loops)]
+        out = [d for dbb, d in ds if not any(dbb in bl for h, bl in loops)]
+        defs[x] = (out, inl)
+    # the partner a' of a is what a becomes
+    an = defs[a][1][0] if defs[a][1] and defs[a][1][0][0] == "local" else None
+    okpair = an is not None and defs[r][1] == [t] and defs[s][1] == [u] and all(len(defs[x][0]) == 1 and len(defs[x][1]) == 1 for x in (a, r, s, t, u))
+    if okpair:
+        ds = [(dbb, norm(d, g)) for dbb, d in body.all_defs_origins(an[1])]
+        loops = natural_loops(body)
+        defs[an] = ([d for dbb, d in ds if not any(dbb in bl for h, bl in loops)], [d for dbb, d in ds if any(dbb in bl for h, bl in loops)])
+        okpair = len(defs[an][0]) == 1 and len(defs[an][1]) == 1
+    ctx.ob(rule, body.name, "variables", "ok" if okpair else "violation",
+           "three pairs (x, x') with x := x' in the loop; the result is (a, r, s, r', s')" if okpair else
+           "the result tuple is not (a, r, s, r', s') of three shifted pairs: a := %s, r := %s (want %s), s := %s (want %s)" % (
+               [show(d, 1)[:20] for d in defs[a][1]], [show(d, 1)[:20] for d in defs[r][1]], show(t, 1), [show(d, 1)[:20] for d in defs[s][1]], show(u, 1)))
+    if not okpair:
+        return
+    carried = (a, an, r, t, s, u)
+
+    def expand(tm, depth=0):
+        """replace single-definition helper locals (q) by their definitions"""
+        def f(x):
+            if x[0] == "local" and x not in carried and depth < 6:
+                ds = body.all_defs_origins(x[1])
+                if len(ds) == 1:
+                    return expand(norm(ds[0][1], g), depth + 1)
+            return None
+        return map_term(tm, f)
+    init = [eval_term_env(fold_std_ops(expand(defs[x][0][0])), {A_: 35, B_: 21}) for x in carried]
+    okinit = init == [35, 21, 1, 0, 0, 1]
+    ctx.ob(rule, body.name, "init", "ok" if okinit else "violation",
+           "(a, a', r, r', s, s') starts as (A, B, 1, 0, 0, 1)" if okinit else "the initial state is %s for (A, B) = (35, 21), not (35, 21, 1, 0, 0, 1)" % init)
+    upd = [fold_std_ops(expand(defs[x][1][0])) for x in carried]
+    rnd = random.Random(7)
+    bad = None
+    n = 0
+    for _ in range(400):
+        A, B = rnd.randint(-60, 60), rnd.randint(-60, 60)
+        rv, sv, tv, uv = (rnd.randint(-9, 9) for _ in range(4))
+        av, anv = rv * A + sv * B, tv * A + uv * B
+        if anv == 0:
+            continue
+        env = dict(zip(carried, (av, anv, rv, tv, sv, uv)))
+        new = [eval_term_env(e, env) for e in upd]
+        if any(v is None for v in new):
+            bad = "the loop's update expressions cannot be evaluated (not arithmetic over the loop variables): %s" % [show(e, 1)[:40] for e, v in zip(upd, new) if v is None][:1]
+            break
+        na, nan, nr, nt, ns, nu = new
+        n += 1
+        st = "state (a, a', r, r', s, s') = %s with (A, B) = (%d, %d)" % ((av, anv, rv, tv, sv, uv), A, B)
+        if nr * A + ns * B != na or nt * A + nu * B != nan:
+            bad = "the step does not preserve a = r*A + s*B, a' = r'*A + s'*B: from %s it yields %s" % (st, tuple(new))
+        elif na != anv:
+            bad = "the step does not shift a := a' (from %s it yields a = %d)" % (st, na)
+        elif abs(nan) >= abs(anv):
+            bad = "the step does not make |a'| smaller (from %s it yields a' = %d): the gcd is not reached / the loop need not end" % (st, nan)
+        elif nr * nu - ns * nt != -(rv * uv - sv * tv):
+            bad = "the step does not keep r*s' - s*r' = +-1 (from %s it yields %s)" % (st, tuple(new))
+        if bad:
+            break
+    ctx.ob(rule, body.name, "step", "ok" if not bad else "violation",
+           "the loop invariant is preserved, a := a', |a'| decreases, determinant changes sign only (%d sampled states)" % n if not bad else bad)
+    # exit exactly when a' == 0
+    badx = None
+    nx = 0
+    for h, blocks in natural_loops(body):
+        for (x1, x2), atoms in loop_exit_atoms(body, h, blocks, g):
+            nx += 1
+            for v in (-5, -1, 0, 1, 7):
+                vals = [eval_atom_env(("rel", at[1], fold_std_ops(at[2]), fold_std_ops(at[3])) if at[0] == "rel" else ("bool", fold_std_ops(at[1]), at[2]), {an: v}) for at in atoms]
+                vals = [x for x in vals if x is not None]
+                if not vals:
+                    badx = "an exit of the loop does not depend on a' alone: %s" % [show_atom(x)[:40] for x in atoms]
+                elif all(vals) != (v == 0):
+                    badx = "the loop %s when a' = %d" % ("is left" if all(vals) else "continues", v)
+    ctx.ob(rule, body.name, "exit", "ok" if nx >= 1 and not badx else "violation",
+           "the loop is left exactly when a' == 0" if nx >= 1 and not badx else (badx or "no loop exit found"))
